@@ -98,7 +98,7 @@ class C13(Prop):
     id = 'C13'
     title = 'Keys: pubkey derivation, WIF round trip, ECDSA sign/verify match secp256k1'
     lean_targets = ['BtcVerif.Props.C13']
-    table_groups = ['Chain']
+    table_groups = ['ChainAddr']
     theorems = ['BtcVerif.C13.' + t for t in (
         'p_eq', 'p_eq_sec2', 'n_eq', 'n_lt_p', 'p_mod_4', 'G_on_curve', 'G_onCurve', 'n_mul_G', 'n_pred_mul_G',
         'two_mul_G', 'der_roundtrip', 'der_strict', 'derEncode_injective', 'compareBigEndian_sign',
